@@ -21,7 +21,7 @@ Stage(this, next, faults) ==
 Flags == IF scn.failAt = "version"
          THEN pc = "flags" /\ pc' = "exit" /\ exit' = 0 /\ UNCHANGED <<scn, fs, acc, todo>>
          ELSE Stage("flags", "config", {"flag", "nospec"})
-Config == Stage("config", "spec", {"config_missing", "config_yaml", "config_field", "config_feature", "config_feature_disable", "config_type"})
+Config == Stage("config", "spec", {"config_missing", "config_yaml", "config_field", "config_feature", "config_feature_disable", "config_type", "config_found_unreadable", "config_found_yaml"})
 Spec == Stage("spec", "parse", {"spec_missing"})
 Parse == Stage("parse", "ir", {"spec_yaml", "spec_invalid"})
 IR == Stage("ir", "dir", {"not_implemented", "route", "unnameable", "package_invalid", "expand_route"})
